@@ -333,7 +333,7 @@ impl Family for Totality {
                     "elapsed_ms": r.ms, "expect": expect, "detail": match fam { "scale" => json!({"f": case["f"], "n": case["n"]}), "typepos" => json!({"form": case["form"], "opt": case["opt"], "pos": case["pos"]}), _ => json!({}) }}),
         );
         // the binary on real files: always for the small families, sampled for the soups
-        let with_bin = matches!(fam, "typepos" | "scale") || (fam == "soup" && key % 16 == 0) || (family_name == "generated" && key % 8 == 0);
+        let with_bin = matches!(fam, "typepos" | "scale") || (fam == "soup" && (key >> 8) % 16 == 0) || (family_name == "generated" && (key >> 8) % 8 == 0);
         if with_bin {
             let mut ev = bin_run(&dir, &texts, &["--dry-run".to_owned()], true);
             ev["ev"] = json!("run");
